@@ -31,13 +31,12 @@
 (* violation carries whether MechObserved predicted exactly that tag       *)
 (* there (counterexample of the model reproduced by the code).             *)
 (*                                                                         *)
-(* Verdict of a record: <<"V", id, {<<clause, var, tag, first step,        *)
-(* predicted>>}>>; step 0 is the state after construction.                 *)
+(* Verdict of a record, printed when its last step has been consumed:      *)
+(*   <<"V", id, {<<clause, var, tag, first step, predicted>>},             *)
+(*     <<>> or <<first drifting step, {<<var, observed, model>>}>> >>      *)
+(* step 0 is the state after construction.                                 *)
 (***************************************************************************)
-EXTENDS Integers, Sequences, FiniteSets, TLC, Json, IOUtils, TLCExt
-
-CL == INSTANCE CoordLazy WITH Mech <- "unused", src <- "unused", store <- "unused",
-                              norm <- "unused", nrmRan <- "unused"
+EXTENDS CoordMech, Integers, TLC, Json, IOUtils, TLCExt
 
 Recs    == ndJsonDeserialize(IOEnv.REC_FILE)
 Block   == 16
@@ -45,78 +44,90 @@ NBlocks == (Len(Recs) + Block - 1) \div Block
 
 VARIABLE i      \* < 0: block marker, > 0: record index
 
-Has(r, f)  == f \in DOMAIN r
+HasF(r, f) == f \in DOMAIN r
 Range(s)   == { s[j] : j \in DOMAIN s }
-ObsStore(o) == [v \in CL!Var |-> IF v \in DOMAIN o THEN o[v] ELSE "none"]
+ObsStore(o) == [v \in Var |-> IF v \in DOMAIN o THEN o[v] ELSE "none"]
 
-Tags(r, k)  == IF k = 0 THEN r.init ELSE r.steps[k].tags
+TagsAt(r, k)  == IF k = 0 THEN r.init ELSE r.steps[k].tags
 Ran(r, k)   == \E j \in 1..k : r.steps[j].act = "normalize"
 
 \* ---- normative clauses, per step -------------------------------------------------
 TagFails(r, k) ==
-  LET o == Tags(r, k)  ran == Ran(r, k) IN
-  { <<CL!ClauseOf(r.src, v, o[v]), v, o[v]>> :
-       v \in { w \in DOMAIN o : w \in CL!Var /\ o[w] \notin CL!OkTags(r.src, w, ran) } }
+  LET o == TagsAt(r, k)  ran == Ran(r, k) IN
+  { <<ClauseOf(r.src, v, o[v]), v, o[v]>> :
+       v \in { w \in DOMAIN o : w \in Var /\ o[w] \notin OkTags(r.src, w, ran) } }
 
 StepFails(r, k) ==
   IF k = 0
   THEN TagFails(r, 0)
-       \cup { <<"SuppliedKept", v, "none">> : v \in { w \in CL!Var : CL!SuppliedVar(r.src, w) /\ w \notin DOMAIN r.init } }
+       \cup { <<"SuppliedKept", v, "none">> : v \in { w \in Var : SuppliedVar(r.src, w) /\ w \notin DOMAIN r.init } }
   ELSE
   LET st   == r.steps[k]
       o    == st.tags
-      prev == Tags(r, k - 1)
+      prev == TagsAt(r, k - 1)
       ran  == Ran(r, k)
       isAcc == st.act # "normalize"
   IN TagFails(r, k)
-     \cup (IF isAcc /\ Has(st, "ret") /\ st.ret \notin CL!OkTags(r.src, st.act, ran)
-           THEN { <<CL!ClauseOf(r.src, st.act, st.ret), st.act, st.ret>> } ELSE {})
+     \cup (IF isAcc /\ HasF(st, "ret") /\ st.ret \notin OkTags(r.src, st.act, ran)
+           THEN { <<ClauseOf(r.src, st.act, st.ret), st.act, st.ret>> } ELSE {})
      \cup { <<"Monotone", v, "none">> : v \in (DOMAIN prev) \ (DOMAIN o) }
-     \cup (IF isAcc /\ ~Has(st, "err") /\ st.act \notin DOMAIN o
+     \cup (IF isAcc /\ ~HasF(st, "err") /\ st.act \notin DOMAIN o
            THEN { <<"AccessReturns", st.act, "none">> } ELSE {})
-     \cup (IF Has(st, "err") THEN { <<"Raises", st.act, "error">> } ELSE {})
+     \cup (IF HasF(st, "err") THEN { <<"Raises", st.act, "error">> } ELSE {})
      \cup (IF isAcc THEN {}
            ELSE { <<"NormalizeLengthsOnly", v, o[v]>> :
                     v \in { w \in (DOMAIN prev) \cap (DOMAIN o) :
-                              IF CL!IsCart(w) THEN CL!DirClass(o[w]) # CL!DirClass(prev[w])
+                              IF IsCart(w) THEN DirClass(o[w]) # DirClass(prev[w])
                               ELSE (o[w] # prev[w] \/ w \in Range(st.changed)) } })
 
-\* ---- the transcription of the code, run on the same history --------------------------
-RECURSIVE Run(_, _, _, _, _)
-Run(m, st, nm, steps, k) ==
-  IF k > Len(steps) THEN <<>>
-  ELSE LET a == steps[k].act
-           e == IF a = "normalize" THEN CL!NormalizeEff(m, st, nm)
-                ELSE [st |-> CL!AccessEff(m, st, a), norm |-> nm]
-       IN <<e.st>> \o Run(m, e.st, e.norm, steps, k + 1)
-\* element k + 1 is the predicted store after step k
-Predicted(m, r) == <<CL!InitStore(r.src)>> \o Run(m, CL!InitStore(r.src), "unknown", r.steps, 1)
+\* ---- the trace machine -------------------------------------------------------------
+\* One TLC state per recorded step (so validation is linear in the length of the trace):
+\*   i      < 0: block marker; > 0: index of the record being validated
+\*   k      number of steps consumed
+\*   mst, mnorm   store and _normalized flag MechObserved predicts after k steps
+\*   fails  {<<clause, var, tag, first step, predicted by MechObserved>>} so far
+\*   dr     <<>> or <<first step at which the recorded store differs from mst, differences>>
+VARIABLES k, mst, mnorm, fails, dr
+vars == <<i, k, mst, mnorm, fails, dr>>
 
-Verdict(r) ==
-  LET n    == Len(r.steps)
-      F    == [k \in 0..n |-> StepFails(r, k)]
-      U    == UNION { F[k] : k \in 0..n }
-      P    == Predicted(CL!MechObserved, r)
-      first(f) == CHOOSE k \in 0..n : f \in F[k] /\ \A j \in 0..n : f \in F[j] => k <= j
-  IN { <<f[1], f[2], f[3], first(f), (f[2] \in CL!Var /\ P[first(f) + 1][f[2]] = f[3])>> : f \in U }
+Known(fs)  == { <<f[1], f[2], f[3]>> : f \in fs }
+Stamp(r, kk, st, fs, old) ==
+  old \cup { <<f[1], f[2], f[3], kk, (f[2] \in Var /\ st[f[2]] = f[3])>> : f \in (fs \ Known(old)) }
+DriftAt(r, kk, st) ==
+  LET o == ObsStore(TagsAt(r, kk))
+      d == { <<v, o[v], st[v]>> : v \in { w \in Var : o[w] # st[w] } }
+  IN IF d = {} THEN <<>> ELSE <<kk, d>>
 
-Drift(r) ==
-  LET n == Len(r.steps)
-      P == Predicted(CL!MechObserved, r)
-      D == [k \in 0..n |-> { <<v, ObsStore(Tags(r, k))[v], P[k + 1][v]>> :
-                               v \in { w \in CL!Var : ObsStore(Tags(r, k))[w] # P[k + 1][w] } }]
-      ks == { k \in 0..n : D[k] # {} }
-  IN IF ks = {} THEN <<>>
-     ELSE LET k0 == CHOOSE k \in ks : \A j \in ks : k <= j IN <<k0, D[k0]>>
+Init == /\ i \in { -b : b \in 1..NBlocks }
+        /\ k = 0 /\ mst = <<>> /\ mnorm = "" /\ fails = {} /\ dr = <<>>
 
-Init == i \in { -b : b \in 1..NBlocks }
-Next == /\ i < 0
-        /\ i' \in { k \in 1..Len(Recs) : (k - 1) \div Block = (-i) - 1 }
+Start == /\ i < 0
+         /\ \E j \in { n \in 1..Len(Recs) : (n - 1) \div Block = (-i) - 1 } :
+              LET r  == Recs[j]
+                  st == InitStore(r.src)
+              IN /\ i' = j
+                 /\ k' = 0
+                 /\ mst' = st
+                 /\ mnorm' = "unknown"
+                 /\ fails' = Stamp(r, 0, st, StepFails(r, 0), {})
+                 /\ dr' = DriftAt(r, 0, st)
 
-Judge == i > 0 =>
-           LET r == Recs[i]
-               v == Verdict(r)
-               d == Drift(r)
-           IN /\ (v = {} \/ PrintT(<<"V", r.id, v>>))
-              /\ (d = <<>> \/ PrintT(<<"D", r.id, d[1], d[2]>>))
+Step == /\ i > 0
+        /\ k < Len(Recs[i].steps)
+        /\ LET r == Recs[i]
+               a == r.steps[k + 1].act
+               e == IF a = "normalize" THEN NormalizeEff(MechObserved, mst, mnorm)
+                    ELSE [st |-> AccessEff(MechObserved, mst, a), norm |-> mnorm]
+           IN /\ i' = i
+              /\ k' = k + 1
+              /\ mst' = e.st
+              /\ mnorm' = e.norm
+              /\ fails' = Stamp(r, k + 1, e.st, StepFails(r, k + 1), fails)
+              /\ dr' = IF dr # <<>> THEN dr ELSE DriftAt(r, k + 1, e.st)
+
+Next == Start \/ Step
+
+\* verdict of a fully consumed trace (always TRUE; PrintT is the output channel)
+Done  == i > 0 /\ k = Len(Recs[i].steps)
+Judge == Done => PrintT(<<"V", Recs[i].id, fails, dr>>)
 =============================================================================
